@@ -222,12 +222,16 @@ Definition h_merge_slot (rec : hmsg -> hmsg -> A (bool * hmsg * hmsg)) (md : mde
       | _ => ret (true, e, l, eu, lu)
       end
   | HOne lh lv =>
-      match f_label f, e with
-      | (LOptional | LNone), HOne eh ev =>
-          doA r <- h_merge_cell rec f false eh ev lh lv;
-          let '(ok, (eh', ev'), (lh', lv')) := r in
-          ret (ok, HOne eh' ev', HOne lh' lv', eu, lu)
-      | _, _ => ret (true, e, l, eu, lu)
+      match e with
+      | HOne eh ev =>
+          (* optional / implicit-presence members, and required sub-messages ("fix:" commit 6504315) *)
+          if label_eqb (f_label f) LOptional || label_eqb (f_label f) LNone ||
+             (label_eqb (f_label f) LRequired && ftype_eqb (f_type f) TMessage) then
+            doA r <- h_merge_cell rec f false eh ev lh lv;
+            let '(ok, (eh', ev'), (lh', lv')) := r in
+            ret (ok, HOne eh' ev', HOne lh' lv', eu, lu)
+          else ret (true, e, l, eu, lu)
+      | _ => ret (true, e, l, eu, lu)
       end
   | HUnion g =>
       with_nth (fun lcv0 : Z * hval =>
